@@ -35,6 +35,10 @@ Judge(k) ==
      /\ Report(k, "C12.StillConvertible", (ln(k).ev \in Govern) => \A d \in Denoms : Convertible(d) => Convertible(d)')
      /\ Report(k, "C12.RejectNoChange", (ln(k).ev \in Govern /\ ln(k).res # "ok") => Unchanged(k))
      /\ Report(k, "C11.RejectNoChange", (ln(k).ev \in {"ConvertCoin", "ConvertERC20"} /\ ln(k).res # "ok") => Unchanged(k))
+     (* a pair is enabled or disabled only by its own toggle proposal: what the conversion gate reads is what governance set *)
+     /\ Report(k, "C11.EnabledOnlyByToggle", \A d \in Denoms :
+                   (d \in DOMAIN byDenom /\ d \in DOMAIN byDenom' /\ HasPair(byDenom[d]) /\ HasPair(byDenom[d])')
+                     => (PairOf(byDenom[d]).enabled = PairOf(byDenom[d])'.enabled \/ ln(k).ev = "Toggle"))
      /\ Report(k, "C11.Gate", (ln(k).ev \in {"ConvertCoin", "ConvertERC20"} /\ ln(k).res = "ok") =>
                    LET t == IF ln(k).ev = "ConvertCoin" THEN A(k).d ELSE A(k).c IN
                    /\ enabled /\ A(k).recv # "blocked"
